@@ -311,8 +311,8 @@ def rule_r4(chk, db, conf):
                 if bl["term"]["k"] == "call":
                     ops += [flow.const_of(x, a) or a for a in bl["term"]["args"]]
                     hb = db.bodies.get(bl["term"]["callee"].get("resolved") or "") or db.bodies.get(callee_def(bl["term"]))
-                    if hb is not None and hb.crate == "s3s_fs" and hb.kind in ("Fn", "AssocFn") and len(seen) < 40 and hb.name not in fscore.confining_fns(db):
-                        work += db.nested(hb)       # a private helper that formats the name / tests it
+                    if hb is not None and hb.crate == "s3s_fs" and hb.kind in ("Fn", "AssocFn") and len(seen) < 60:
+                        work += db.nested(hb)       # a private helper that formats the name / tests it (possibly behind the confinement wrapper)
                 for o in ops:
                     if not isinstance(o, dict):
                         continue
